@@ -1,3 +1,280 @@
 (** C13 — proofs about the pendingWakeup model. *)
+From Coq Require Import Sorting.Sorted.
 From Akita Require Import Lib.Base C13.Model.
 Local Open Scope N_scope.
+
+Lemma list_min_spec l m : list_min l = Some m -> In m l /\ Forall (fun x => m <= x) l.
+Proof.
+  revert m. induction l as [|x r IH]; intros m H; [discriminate|].
+  cbn [list_min] in H. destruct (list_min r) as [m'|] eqn:E.
+  - destruct (IH m' eq_refl) as [Hin Hall]. inversion H; subst. clear H.
+    destruct (x <=? m') eqn:Ex.
+    + split; [left; reflexivity|]. constructor; [lia|].
+      eapply Forall_impl; [|exact Hall]. cbn. intros; lia.
+    + split; [right; exact Hin|]. constructor; [lia|exact Hall].
+  - inversion H; subst. destruct r; [|cbn in E; destruct (list_min r); discriminate].
+    split; [left; reflexivity|]. constructor; [lia|constructor].
+Qed.
+
+Lemma list_min_none l : list_min l = None -> l = [].
+Proof. destruct l as [|x r]; [reflexivity|]. cbn. destruct (list_min r); discriminate. Qed.
+
+Lemma remove_first_subset x l y : In y (remove_first x l) -> In y l.
+Proof.
+  induction l as [|z r IH]; cbn [remove_first]; [tauto|].
+  destruct (x =? z); [intro; right; assumption|].
+  intros [->|H]; [left; reflexivity|right; auto].
+Qed.
+
+Lemma remove_first_keeps x l y : In y l -> y <> x -> In y (remove_first x l).
+Proof.
+  induction l as [|z r IH]; cbn [remove_first]; [tauto|].
+  intros [->|H] Hne.
+  - destruct (x =? y) eqn:E; [apply N.eqb_eq in E; congruence|left; reflexivity].
+  - destruct (x =? z); [exact H|right; auto].
+Qed.
+
+(** invariant of the guard: a recorded pending wake-up has its timer event queued *)
+Record Inv (s : st) : Prop := {
+  inv_q : Forall (fun t => now s <= t) (queue s);
+  inv_pw : pw s <> max64 -> In (pw s) (queue s) }.
+
+Lemma inv_init : Inv init.
+Proof. constructor; cbn; [constructor|congruence]. Qed.
+
+(** ScheduleWakeAt(t): what it does under the invariant *)
+Lemma wake_at_spec s t : Inv s ->
+  (t < now s -> schedule_wake_at s t = None) /\
+  (now s <= t ->
+   exists s' o, schedule_wake_at s t = Some (s', o) /\ Inv s' /\ now s' = now s /\
+                (exists ext, queue s' = queue s ++ ext) /\
+                (exists u, In u (queue s') /\ u <= t) /\
+                (o = ODrop \/ o = OSched t)).
+Proof.
+  intro HI. unfold schedule_wake_at, schedule_wake_at_g.
+  destruct (negb (pw s =? max64) && (pw s <=? t)) eqn:G.
+  - apply andb_true_iff in G. destruct G as [G1 G2].
+    assert (Hne : pw s <> max64) by (intro E; rewrite E, N.eqb_refl in G1; discriminate).
+    pose proof (inv_pw s HI Hne) as Hin.
+    pose proof (inv_q s HI) as Hq. rewrite Forall_forall in Hq. specialize (Hq _ Hin).
+    split; [intro; lia|]. intros _. exists s, ODrop.
+    split; [reflexivity|]. split; [exact HI|]. split; [reflexivity|].
+    split; [exists []; rewrite app_nil_r; reflexivity|].
+    split; [exists (pw s); split; [exact Hin|lia]|left; reflexivity].
+  - split; [intro Hlt; apply N.ltb_lt in Hlt; rewrite Hlt; reflexivity|].
+    intro Hge. destruct (t <? now s) eqn:E; [lia|].
+    eexists. exists (OSched t). split; [reflexivity|]. cbn [now queue pw].
+    split; [|split; [reflexivity|split; [exists [t]; reflexivity|split; [|right; reflexivity]]]].
+    + constructor; cbn [now queue pw].
+      * apply Forall_app. split; [exact (inv_q s HI)|constructor; [exact Hge|constructor]].
+      * intros _. apply in_or_app. right. left. reflexivity.
+    + exists t. split; [apply in_or_app; right; left; reflexivity|lia].
+Qed.
+
+Lemma req_time_ge s q s' e : Inv s -> step s (Req q) = Ok s' e -> now s <= req_time q s.
+Proof.
+  intros HI H. cbn [step] in H. unfold request in H.
+  destruct (N.lt_ge_cases (req_time q s) (now s)) as [Hlt|Hge]; [|exact Hge].
+  destruct (wake_at_spec s (req_time q s) HI) as [Hp _]. rewrite (Hp Hlt) in H. discriminate.
+Qed.
+
+Lemma req_ok s q s' e : Inv s -> step s (Req q) = Ok s' e ->
+  Inv s' /\ now s' = now s /\ (exists ext, queue s' = queue s ++ ext) /\
+  (exists u, In u (queue s') /\ u <= req_time q s).
+Proof.
+  intros HI H. pose proof (req_time_ge s q s' e HI H) as Hge.
+  cbn [step] in H. unfold request in H.
+  destruct (wake_at_spec s (req_time q s) HI) as [_ Hok].
+  destruct (Hok Hge) as [s1 [o [H1 [H2 [H3 [H4 [H5 _]]]]]]].
+  rewrite H1 in H. inversion H; subst. auto.
+Qed.
+
+Lemma pop_ok s s' e : step s Pop = Ok s' e ->
+  exists m, list_min (queue s) = Some m /\ now s <= m /\ e = ERun m /\
+            s' = mk_st max64 (remove_first m (queue s)) m.
+Proof.
+  cbn [step]. destruct (list_min (queue s)) as [m|]; [|discriminate].
+  destruct (m <? now s) eqn:E; [discriminate|]. intro H. inversion H; subst.
+  exists m. repeat split; auto. lia.
+Qed.
+
+Lemma adv_ok s t s' e : step s (Adv t) = Ok s' e ->
+  now s <= t /\ Forall (fun u => t <= u) (queue s) /\ e = EAdv t /\ s' = mk_st (pw s) (queue s) t.
+Proof.
+  cbn [step]. destruct (t <? now s) eqn:E; [discriminate|].
+  destruct (forallb (fun u => t <=? u) (queue s)) eqn:Ef; [|discriminate].
+  intro H. inversion H; subst. repeat split; auto; [lia|].
+  rewrite forallb_forall in Ef. apply Forall_forall. intros x Hx. specialize (Ef x Hx). lia.
+Qed.
+
+Lemma inv_step s o s' e : Inv s -> step s o = Ok s' e -> Inv s'.
+Proof.
+  intros HI H. destruct o as [t|q|].
+  - destruct (adv_ok _ _ _ _ H) as [Hge [Hall [_ ->]]].
+    constructor; cbn [now queue pw]; [exact Hall|exact (inv_pw s HI)].
+  - exact (proj1 (req_ok s q s' e HI H)).
+  - destruct (pop_ok _ _ _ H) as [m [Hm [Hge [_ ->]]]].
+    destruct (list_min_spec _ _ Hm) as [Hin Hall].
+    constructor; cbn [now queue pw]; [|congruence].
+    apply Forall_forall. intros x Hx. apply remove_first_subset in Hx.
+    rewrite Forall_forall in Hall. auto.
+Qed.
+
+Lemma exec_cons s o r s' evs : exec s (o :: r) = Some (s', evs) ->
+  exists s1 e es, step s o = Ok s1 e /\ exec s1 r = Some (s', es) /\ evs = e :: es.
+Proof.
+  cbn [exec]. destruct (step s o) as [s1 e| |]; try discriminate.
+  destruct (exec s1 r) as [[s2 es]|] eqn:Ee; [|discriminate].
+  intro H. inversion H; subst. exists s1, e, es. auto.
+Qed.
+
+Lemma exec_app s a b s' evs : exec s (a ++ b) = Some (s', evs) ->
+  exists s1 e1 e2, exec s a = Some (s1, e1) /\ exec s1 b = Some (s', e2) /\ evs = e1 ++ e2.
+Proof.
+  revert s evs. induction a as [|o a IH]; intros s evs H.
+  - exists s, [], evs. auto.
+  - rewrite <- app_comm_cons in H.
+    destruct (exec_cons _ _ _ _ _ H) as [s1 [e [es [H1 [H3 ->]]]]].
+    destruct (IH _ _ H3) as [s2 [e1 [e2 [H4 [H5 ->]]]]].
+    exists s2, (e :: e1), e2. cbn [exec]. rewrite H1, H4. auto.
+Qed.
+
+Lemma inv_exec s ops s' evs : Inv s -> exec s ops = Some (s', evs) -> Inv s'.
+Proof.
+  revert s evs. induction ops as [|o r IH]; intros s evs HI H.
+  - inversion H; subst. exact HI.
+  - destruct (exec_cons _ _ _ _ _ H) as [s1 [e [es [H1 [H3 ->]]]]].
+    eapply IH; [|exact H3]. eapply inv_step; eauto.
+Qed.
+
+(** engine time and processor invocation times never go back *)
+Lemma runs_ge ops : forall s s' evs, Inv s -> exec s ops = Some (s', evs) ->
+  Forall (fun v => now s <= v) (runs evs) /\ now s <= now s'.
+Proof.
+  induction ops as [|o r IH]; intros s s' evs HI H.
+  - inversion H; subst. split; [constructor|lia].
+  - destruct (exec_cons _ _ _ _ _ H) as [s1 [e [es [H1 [H3 ->]]]]].
+    pose proof (inv_step _ _ _ _ HI H1) as HI1.
+    destruct (IH _ _ _ HI1 H3) as [IHa IHb].
+    assert (Hn : now s <= now s1 /\ forall m, e = ERun m -> now s <= m).
+    { destruct o as [t|q|].
+      - destruct (adv_ok _ _ _ _ H1) as [Hge [_ [-> ->]]]. cbn. split; [exact Hge|intros; discriminate].
+      - destruct (req_ok _ _ _ _ HI H1) as [_ [Hn _]]. split; [lia|].
+        intros m E. cbn [step] in H1. unfold request in H1.
+        destruct (schedule_wake_at s (req_time q s)) as [[? ?]|]; [|discriminate].
+        inversion H1; subst. discriminate.
+      - destruct (pop_ok _ _ _ H1) as [m [_ [Hge [-> ->]]]]. cbn. split; [exact Hge|].
+        intros m' E. inversion E; subst. exact Hge. }
+    destruct Hn as [Hn Hrun]. split; [|lia].
+    assert (Hrest : Forall (fun v => now s <= v) (runs es)).
+    { eapply Forall_impl; [|exact IHa]. cbn. intros; lia. }
+    destruct e; cbn [runs]; try exact Hrest.
+    constructor; [apply Hrun; reflexivity|exact Hrest].
+Qed.
+
+Lemma runs_sorted ops : forall s s' evs, Inv s -> exec s ops = Some (s', evs) ->
+  StronglySorted N.le (runs evs).
+Proof.
+  induction ops as [|o r IH]; intros s s' evs HI H.
+  - inversion H; subst. constructor.
+  - destruct (exec_cons _ _ _ _ _ H) as [s1 [e [es [H1 [H3 ->]]]]].
+    pose proof (inv_step _ _ _ _ HI H1) as HI1.
+    specialize (IH _ _ _ HI1 H3).
+    destruct e as [t|q t o'|m]; cbn [runs]; try exact IH.
+    constructor; [exact IH|].
+    destruct (runs_ge _ _ _ _ HI1 H3) as [Hge _].
+    assert (now s1 = m).
+    { destruct o as [t0|q|].
+      - destruct (adv_ok _ _ _ _ H1) as [_ [_ [Ee _]]]. discriminate.
+      - cbn [step] in H1. unfold request in H1.
+        destruct (schedule_wake_at s (req_time q s)) as [[? ?]|]; [|discriminate].
+        inversion H1.
+      - destruct (pop_ok _ _ _ H1) as [m' [_ [_ [Em ->]]]]. inversion Em; subst. reflexivity. }
+    subst m. exact Hge.
+Qed.
+
+(** a queued timer event bounds the time of the next processor invocation *)
+Lemma first_run_bound u ops : forall s s' evs, Inv s -> In u (queue s) ->
+  exec s ops = Some (s', evs) ->
+  match runs evs with
+  | [] => In u (queue s') /\ now s' <= u
+  | v :: _ => v <= u
+  end.
+Proof.
+  induction ops as [|o r IH]; intros s s' evs HI Hin H.
+  - inversion H; subst. cbn [runs]. split; [exact Hin|].
+    pose proof (inv_q s' HI) as Hq. rewrite Forall_forall in Hq. auto.
+  - destruct (exec_cons _ _ _ _ _ H) as [s1 [e [es [H1 [H3 ->]]]]].
+    pose proof (inv_step _ _ _ _ HI H1) as HI1.
+    destruct o as [t|q|].
+    + destruct (adv_ok _ _ _ _ H1) as [_ [_ [-> ->]]]. cbn [runs].
+      apply (IH _ _ _ HI1); [exact Hin|exact H3].
+    + destruct (req_ok _ _ _ _ HI H1) as [_ [_ [[ext Hext] _]]].
+      assert (He : runs (e :: es) = runs es).
+      { cbn [step] in H1. unfold request in H1.
+        destruct (schedule_wake_at s (req_time q s)) as [[? ?]|]; [|discriminate].
+        inversion H1; subst. reflexivity. }
+      rewrite He. apply (IH _ _ _ HI1); [|exact H3].
+      rewrite Hext. apply in_or_app. left. exact Hin.
+    + destruct (pop_ok _ _ _ H1) as [m [Hm [_ [-> ->]]]]. cbn [runs].
+      destruct (list_min_spec _ _ Hm) as [_ Hall]. rewrite Forall_forall in Hall. auto.
+Qed.
+
+Lemma exec_one s o s' evs : exec s [o] = Some (s', evs) ->
+  exists e, step s o = Ok s' e /\ evs = [e].
+Proof.
+  intro H. destruct (exec_cons _ _ _ _ _ H) as [s1 [e [es [H1 [H3 ->]]]]].
+  inversion H3; subst. eauto.
+Qed.
+
+(** C13, first clause *)
+Lemma no_later q ops1 s0 evs0 s1 e ops2 s2 evs2 :
+  exec init ops1 = Some (s0, evs0) -> step s0 (Req q) = Ok s1 e ->
+  exec s1 ops2 = Some (s2, evs2) ->
+  now s0 <= req_time q s0 /\
+  match runs evs2 with
+  | [] => (exists u, In u (queue s2) /\ u <= req_time q s0) /\ now s2 <= req_time q s0
+  | v :: _ => v <= req_time q s0
+  end.
+Proof.
+  intros H0 H1 H2. pose proof (inv_exec _ _ _ _ inv_init H0) as HI0.
+  split; [exact (req_time_ge _ _ _ _ HI0 H1)|].
+  destruct (req_ok _ _ _ _ HI0 H1) as [HI1 [_ [_ [u [Hin Hle]]]]].
+  pose proof (first_run_bound u _ _ _ _ HI1 Hin H2) as Hb.
+  destruct (runs evs2); [|lia].
+  destruct Hb as [A B]. split; [exists u; auto|lia].
+Qed.
+
+Definition is_notify (q : req) : Prop :=
+  match q with WakeAt _ => False | _ => True end.
+
+(** C13, second clause *)
+Lemma notify_now q ops1 s0 evs0 s1 e ops2 s2 evs2 : is_notify q ->
+  exec init ops1 = Some (s0, evs0) -> step s0 (Req q) = Ok s1 e ->
+  exec s1 ops2 = Some (s2, evs2) ->
+  match runs evs2 with
+  | [] => In (now s0) (queue s2) /\ now s2 = now s0
+  | v :: _ => v = now s0
+  end.
+Proof.
+  intros Hq H0 H1 H2. pose proof (inv_exec _ _ _ _ inv_init H0) as HI0.
+  assert (Ht : req_time q s0 = now s0) by (destruct q; [destruct Hq|..]; reflexivity).
+  destruct (req_ok _ _ _ _ HI0 H1) as [HI1 [Hn [_ [u [Hin Hle]]]]].
+  assert (Hu : u = now s0).
+  { pose proof (inv_q s1 HI1) as Hq1. rewrite Forall_forall in Hq1. specialize (Hq1 _ Hin). lia. }
+  subst u.
+  pose proof (first_run_bound _ _ _ _ _ HI1 Hin H2) as Hb.
+  destruct (runs_ge _ _ _ _ HI1 H2) as [Hge Hmono].
+  destruct (runs evs2) as [|v l].
+  - destruct Hb as [A B]. split; [exact A|lia].
+  - inversion Hge; subst. lia.
+Qed.
+
+(** a request for a time in the past panics (engine.Schedule) *)
+Lemma past_request_panics ops s evs t : exec init ops = Some (s, evs) -> t < now s ->
+  step s (Req (WakeAt t)) = Panic.
+Proof.
+  intros H Hlt. pose proof (inv_exec _ _ _ _ inv_init H) as HI.
+  cbn [step]. unfold request. cbn [req_time].
+  destruct (wake_at_spec s t HI) as [Hp _]. rewrite (Hp Hlt). reflexivity.
+Qed.
